@@ -319,11 +319,32 @@ def run(ctx) -> None:
     event_flag = "should_keep_running()" in W.raw or "_stopped_event.is_set()" in W.raw
     ctx.check(bool(flagvars) or event_flag, RR, "reader loop condition tests a termination flag", f"loop condition `{W.raw}` tests neither a negated local flag nor the thread's stop event", bf.loc)
     got = {"ignored": False, "delete_self": False}
+
+    def flag_set_under(evs) -> list[str] | None:
+        """None if no termination flag can become true on these events; otherwise the extra conditions under which it does:
+        `flag = True` -> []; `flag = flag or E` / `flag = E or flag` / `flag = E` with E a test -> the conjuncts of E."""
+        for e in evs:
+            if e.kind != "assign" or e.extra.get("name") not in flagvars:
+                continue
+            if e.text.endswith("= True"):
+                return []
+            t = e.extra.get("term")
+            parts = list(t.values) if isinstance(t, ast.BoolOp) and isinstance(t.op, ast.Or) else [t]
+            rest = [x for x in parts if not (isinstance(x, ast.Name) and x.id.split("@")[0] in flagvars)]
+            if len(rest) == 1 and isinstance(rest[0], (ast.Compare, ast.BoolOp, ast.Call)):
+                r = rest[0]
+                conj = list(r.values) if isinstance(r, ast.BoolOp) and isinstance(r.op, ast.And) else [r]
+                return [ast.unparse(x) for x in conj]
+        return None
+
     inner = find_loops(W.extra["paths"], lambda e: e.extra.get("kind") == "for")
     for IL in inner:
         for b in IL.extra["paths"]:
             c = b.conds()
-            sets_flag = any(e.kind == "assign" and e.extra.get("name") in flagvars and e.text.endswith("= True") for e in b.evs) or (
+            extra = flag_set_under(b.evs)
+            if extra:
+                c = {**c, **{a: True for a in extra}}
+            sets_flag = extra is not None or (
                 event_flag and any(e.kind == "call" and e.extra.get("func") in ("self._stopped_event.set", "self.stopped_event.set") for e in b.evs)
             )
             root_eq = any(t and "==" in a and "self._inotify.path" in a for a, t in c.items())
